@@ -2,7 +2,8 @@
 
 R-C05-1  every component is verdict-relevant: each proof field and each statement component has a must-executed use on the verdict path
          that flows into a transcript absorption preceding a challenge, an argument of the gate MSM, or an equality guard against the
-         batch's reference member; points have both (absorbed and multiplied)
+         batch's reference member; points have both (absorbed and multiplied): the stored *compressed* view of a point is what the
+         transcript absorbs (not a recompression of the other view, which would leave the stored field bound by nothing)
 R-C05-2  whole use: each such use consumes the whole collection in order; zipped collections have a length-equality guard or a
          constructor invariant
 R-C05-3  the proof's extension-degree tag is tied to d1 at the only two construction sites of the proof type (prover, decoder)
